@@ -24,6 +24,9 @@ import (
 	"github.com/bnb-chain/tss-lib/v2/tss"
 )
 
+// the Paillier and ring-Pedersen moduli of the new committee have the size key generation demands (keygen round 2)
+const paillierBitsLen = 2048
+
 func (round *round4) Start() *tss.Error {
 	if round.started {
 		return round.WrapError(errors.New("round already started"))
@@ -62,8 +65,14 @@ func (round *round4) Start() *tss.Error {
 			r2msg1.UnmarshalNTilde(),
 			r2msg1.UnmarshalH1(),
 			r2msg1.UnmarshalH2()
+		if paiPK.N.BitLen() != paillierBitsLen {
+			return round.WrapError(errors.New("got paillier modulus with insufficient bits for this party"), msg.GetFrom())
+		}
 		if H1j.Cmp(H2j) == 0 {
 			return round.WrapError(errors.New("h1j and h2j were equal for this party"), msg.GetFrom())
+		}
+		if NTildej.BitLen() != paillierBitsLen {
+			return round.WrapError(errors.New("got NTildej with insufficient bits for this party"), msg.GetFrom())
 		}
 		h1JHex, h2JHex := hex.EncodeToString(H1j.Bytes()), hex.EncodeToString(H2j.Bytes())
 		if _, found := h1H2Map[h1JHex]; found {
